@@ -199,15 +199,13 @@ def setItem (p : P) (i : Int) (e : Expr) : Except Err P := do
   let k ← normIdx p.data.length i
   pure { p with data := (padData p.data d n).set k (padRow e.data3 d n), nDisj := d, nConj := n }
 
-/-- `insert(index, expr)`: `np.insert(data, index, -1, axis=0)` then `self[index] = expr` -/
-def insert (p : P) (i : Int) (e : Expr) : Except Err P := do
+/-- `insert(index, expr)`: the index is normalised as `list.insert` does (negative counts from the end,
+out of range is clamped), then `np.insert(data, index, -1, axis=0)` and `self[index] = expr` -/
+def insert (p : P) (i : Int) (e : Expr) : Except Err P :=
   let len := p.data.length
-  -- np.insert accepts -len ≤ i ≤ len
-  let k ← if 0 ≤ i ∧ i ≤ len then pure i.toNat
-          else if i < 0 ∧ -(len : Int) ≤ i then pure (len - (-i).toNat)
-          else throw Err.indexError
+  let k : Nat := if i < 0 then (max ((len : Int) + i) 0).toNat else min i.toNat len
   let blank : Row := List.replicate p.nDisj (List.replicate p.nConj padLit)
-  setItem { p with data := p.data.insertIdx k blank } i e
+  setItem { p with data := p.data.insertIdx k blank } (Int.ofNat k) e
 
 def delItem (p : P) (i : Int) : Except Err P := do
   let k ← normIdx p.data.length i
